@@ -348,6 +348,24 @@ ALShiftS(i, j) ==
     ELSE LET n == New(r.st, objs[i].v * r.v) IN
          Commit(Emit(n.st, objs[i].lc, r.lc, Var(n.w)), <<Obj(objs[i].v * r.v, Var(n.w), "int")>>, [a |-> "lshifts", i |-> i, j |-> j, v |-> 0])
 
+\* x >> s = x // (2 ** s): the power gadget on the constant 2, then the floor-division gadget
+ARShiftS(i, j) ==
+    Room(13 * BL + 16) /\
+    LET r == PowGadget(St0, 2, LScale(One, 2), objs[j].v, objs[j].lc, FALSE) IN
+    IF r.st.raised THEN Commit(r.st, <<>>, [a |-> "rshifts", i |-> i, j |-> j, v |-> 0])
+    ELSE LET d == DivMod(r.st, objs[i].v, objs[i].lc, r.v, r.lc) IN
+         Commit(d.st, <<Obj(d.qv, Var(d.q), "int")>>, [a |-> "rshifts", i |-> i, j |-> j, v |-> 0])
+\* x & c, x | c, x ^ c with a plain integer c: a fresh private value and NO constraint (known finding C02-bitwise-const-free)
+BitOp(op, a, b) == LET n == 6 IN
+    LET bits == [k \in 0..(n - 1) |-> CASE op = "and" -> Bit(a, k) * Bit(b, k)
+                                          [] op = "or"  -> Bit(a, k) + Bit(b, k) - Bit(a, k) * Bit(b, k)
+                                          [] op = "xor" -> (Bit(a, k) + Bit(b, k)) % 2] IN
+    bits[0] + 2 * bits[1] + 4 * bits[2] + 8 * bits[3] + 16 * bits[4] + 32 * bits[5]
+ABitwiseC(op, i, c) ==
+    Room(1) /\ objs[i].v >= 0 /\ objs[i].v < 64 /\
+    LET v == BitOp(op, objs[i].v, c) n == New(St0, v) IN
+    Commit(n.st, <<Obj(v, Var(n.w), "int")>>, [a |-> op \o "c", i |-> i, j |-> 0, v |-> c])
+
 \* ---- floor division and remainder: divmod, keeping one of the two results
 AFloorDiv(i, j) ==
     Room(4 * BL + 10) /\
@@ -442,7 +460,8 @@ Next == /\ Len(hist) < MaxLen /\ ~raised
            \/ \E i, j \in Ints : ALt(i, j) \/ ATrueDiv(i, j) \/ ADivMod(i, j)
            \/ (Wide /\ \E i, j \in Ints : (\E o1 \in {"le", "gt", "ge"} : ACmp(o1, i, j)))
            \/ (Wide /\ \E i, j \in Ints : (AEq(i, j) \/ ANe(i, j) \/ AFloorDiv(i, j) \/ AMod(i, j)))
-           \/ (Wide /\ \E i, j \in Ints : (APowS(i, j) \/ ALShiftS(i, j)))
+           \/ (Wide /\ \E i, j \in Ints : (APowS(i, j) \/ ALShiftS(i, j) \/ ARShiftS(i, j)))
+           \/ (Wide /\ \E i \in Ints : (\E o4 \in {"and", "or", "xor"} : \E c \in {1, 2} : ABitwiseC(o4, i, c)))
            \/ (Wide /\ \E i, j \in Ints : (\E o2 \in {"and", "or", "xor"} : ABitwise(o2, i, j)))
            \/ (Wide /\ \E i, j \in Ints : (\E o3 \in {"assert_lt", "assert_le", "assert_gt", "assert_ge", "assert_eq", "assert_ne"} : AAssert(o3, i, j)))
            \/ (Wide /\ \E i \in Ints : (ANeg(i) \/ AAbs(i) \/ AInvert(i)))
